@@ -6,7 +6,8 @@ Model: `CoclsModel/ThreadPool.lean` (one small step per critical section on the 
 workers `0..nw-1`, clients `nw..nt-1`).  Every theorem quantifies over *all* configurations (any number of workers ≥ 1 and
 of clients, arbitrary client scripts: submissions of every kind whose bodies may stop the pool, submit nested work or
 delete the pool; `stop()`; destruction), over *all* schedules (`run` over an arbitrary list of thread choices, threads
-that are not enabled do not move) and over *all* choices of the waiter a `notify_one` wakes.
+that are not enabled do not move) and over *all* choices of the waiter a `notify_one` wakes and of the order in which
+`stop()` destroys the closures of the swapped-out queue (`std::deque` leaves it unspecified).
 
 The pinned code violated the property in two ways that were repaired (`run(async)` dropped silently: `Cfg.raOwns`;
 executed closure destroyed under the pool mutex: `Cfg.dtorOutside`) — witnesses on the as-is variants below — and in one
